@@ -22,7 +22,8 @@ RULE = ("one case = a trace of 1..10 points (planar dyadic / planar real at scal
 ANCHORS = [("leuvenmapmatching/util/dist_euclidean.py", "interpolate_path"),
            ("leuvenmapmatching/util/dist_latlon.py", "interpolate_path")]
 FLOORS = {"subdivided_gaps:planar": 2000, "subdivided_gaps:latlon": 2000, "exact_division_cases": 100,
-          "repeated_point_cases": 200, "triple_cases": 300, "single_point_cases": 100, "inserted_points_judged": 20000, "near_multiple_cases": 800}
+          "repeated_point_cases": 200, "triple_cases": 300, "single_point_cases": 100, "inserted_points_judged": 20000, "near_multiple_cases": 800,
+          "gaps_across_antimeridian:eastward": 60, "gaps_across_antimeridian:westward": 60}
 ASSUMPTIONS = ["an inserted point counts as 'on the connection' within 1e-9*gap + (64+2k) ulp of the coordinates for k inserted points "
                "(the repository accumulates k rounded additions; first false alarm of this check, corrected) / 1 mm (sphere)",
                "gap bound judged as spacing*(1+1e-9) plus one ulp of the coordinates"]
@@ -35,7 +36,10 @@ def gen_case(rng, i, tier):
     triple = rng.random() < 0.25
     exact = False
     if metric == "latlon":
-        base = (rng.uniform(-60, 60), rng.uniform(-170, 170))
+        base = (rng.uniform(-60, 60), rng.uniform(-180, 180))
+        if rng.random() < 0.12:
+            # "every trace": one that crosses the antimeridian (longitudes jump between +180 and -180), in either direction
+            base = (base[0], rng.choice([-1, 1]) * (180.0 - 10 ** rng.uniform(-6, -2)))
         pts = []
         cur = base
         for _ in range(n):
@@ -92,6 +96,10 @@ def check_case(ctx, case):
         ctx.count("triple_cases")
     if any(a[:2] == b[:2] for a, b in zip(path, path[1:])):
         ctx.count("repeated_point_cases")
+    if latlon:
+        for a, b in zip(path, path[1:]):
+            if abs(a[1] - b[1]) > 180:
+                ctx.count("gaps_across_antimeridian:" + ("westward" if a[1] < b[1] else "eastward"))
     try:
         out = lib.interpolate_path(list(path), dd)
     except Exception as e:
